@@ -191,6 +191,19 @@ def kron_all(ms):
 
 
 # ------------------------------------------------------------------ factors (leaves)
+def lay(a, layout):
+    """same values, different memory layout: C-contiguous copy, Fortran order, or a strided view into a larger buffer"""
+    a = np.array(a, dtype=np.float64)
+    if layout == "F":
+        return np.asfortranarray(a)
+    if layout == "strided":
+        big = np.full(tuple(2 * k for k in a.shape), 7.25)
+        view = big[tuple(slice(None, None, 2) for _ in a.shape)]
+        view[...] = a
+        return view
+    return a
+
+
 def make_leaf(typ, spec):
     """spec: {"names": [..ascending..], "dims": [...], "nout": int, "seed": int} -> dict with exact operators and the quara object.
     A leaf over more than one subsystem is a generic (entangled / non-product) object on the ascending-name composite system."""
@@ -209,7 +222,7 @@ def make_leaf(typ, spec):
         rho = rand_state(rng, D)
         leaf["ops"] = rho
         leaf["vec"] = vec_of(rho, B)
-        leaf["obj"] = State(c, leaf["vec"])
+        leaf["obj"] = State(c, lay(leaf["vec"], spec.get("layout", "C")))
         leaf["rs"], leaf["cs"], leaf["data"] = [d * d for d in dims], [1] * len(dims), [float(x) for x in leaf["vec"]]
     elif typ == "povm":
         n = spec["nout"]
@@ -218,7 +231,8 @@ def make_leaf(typ, spec):
         leaf["ops"] = Es
         vecs = [vec_of(E, B) for E in Es]
         leaf["vecs"] = vecs
-        leaf["obj"] = Povm(c, vecs)
+        rows = lay(np.array(vecs), spec.get("layout", "C"))          # rows of an F-ordered / strided 2-d array are non-contiguous
+        leaf["obj"] = Povm(c, [rows[x] for x in range(len(vecs))] if spec.get("layout", "C") != "C" else vecs)
         leaf["rs"], leaf["cs"] = [n], [d * d for d in dims]
         leaf["data"] = [float(x) for v in vecs for x in v]
     elif typ == "gate":
@@ -226,7 +240,7 @@ def make_leaf(typ, spec):
         leaf["ops"] = Ks
         hs = hs_of_kraus(Ks, B)
         leaf["hs"] = hs
-        leaf["obj"] = Gate(c, hs, is_physicality_required=spec.get("phys", True))
+        leaf["obj"] = Gate(c, lay(hs, spec.get("layout", "C")), is_physicality_required=spec.get("phys", True))
         leaf["rs"] = leaf["cs"] = [d * d for d in dims]
         leaf["data"] = [float(x) for x in hs.ravel()]
     elif typ == "mprocess":
@@ -240,7 +254,7 @@ def make_leaf(typ, spec):
         leaf["ops"] = groups
         hss = [hs_of_kraus(G, B) for G in groups]
         leaf["hss"] = hss
-        leaf["obj"] = MProcess(c, hss, is_physicality_required=spec.get("phys", True))
+        leaf["obj"] = MProcess(c, [lay(h, spec.get("layout", "C")) for h in hss], is_physicality_required=spec.get("phys", True))
         leaf["rs"] = leaf["cs"] = [d * d for d in dims]
         leaf["nout"] = n
     else:
@@ -600,7 +614,8 @@ def gen_tree_cases(ctx, typ, nsys_list, count, sub=None, composite_leaf_prob=0.0
                 leaves.append({"names": [pr[0][0], pr[1][0]], "dims": [pr[0][1], pr[1][1]], "nout": 0, "seed": rng.randrange(10 ** 9)})
                 k += 2
             else:
-                leaves.append({"names": [names[k]], "dims": [dims[k]], "nout": nouts[k], "seed": rng.randrange(10 ** 9)})
+                leaves.append({"names": [names[k]], "dims": [dims[k]], "nout": nouts[k], "seed": rng.randrange(10 ** 9),
+                               "layout": rng.choice(["C", "C", "F", "strided"])})
                 k += 1
         if len(leaves) < 2:
             continue
@@ -616,7 +631,7 @@ def exhaustive_tree_cases(ctx, typ, dims, names_sorted, nouts, sub=None):
     cases = []
     base_seed = ctx.rng.randrange(10 ** 9)
     for perm in itertools.permutations(range(n)):
-        leaves = [{"names": [names_sorted[p]], "dims": [dims[p]], "nout": nouts[p], "seed": base_seed + p} for p in perm]
+        leaves = [{"names": [names_sorted[p]], "dims": [dims[p]], "nout": nouts[p], "seed": base_seed + p, "layout": ["C", "F", "strided"][(p + len(cases)) % 3]} for p in perm]
         for t in all_trees(list(range(n))):
             cases.append({"typ": typ, "sub": sub or typ, "leaves": leaves, "tree": t, "varargs": True})
     return cases
@@ -624,11 +639,15 @@ def exhaustive_tree_cases(ctx, typ, dims, names_sorted, nouts, sub=None):
 
 def sub_state(ctx):
     cases = exhaustive_tree_cases(ctx, "state", [2, 3, 2], [1, 4, 6], [0, 0, 0])
-    cases += exhaustive_tree_cases(ctx, "state", [2, 2, 2, 2], [0, 2, 3, 7], [0] * 4)[:: (7 if ctx.quick else 1)]
+    cases += exhaustive_tree_cases(ctx, "state", [2, 2, 2, 2], [0, 2, 3, 7], [0] * 4)[:: (9 if ctx.quick else 1)]
     if not ctx.quick:
         cases += exhaustive_tree_cases(ctx, "state", [2, 3, 2, 2], [0, 2, 3, 7], [0] * 4)
         cases += exhaustive_tree_cases(ctx, "state", [3, 2, 3], [1, 4, 6], [0, 0, 0])
     cases += gen_tree_cases(ctx, "state", [2, 3, 3, 4], ctx.n(20, 300), composite_leaf_prob=0.25)
+    if not ctx.quick:
+        # five subsystems at object level (quara needs ~1 minute for the 5-qubit composite basis): one left chain, names out of order
+        cases.append({"typ": "state", "sub": "state", "tree": [[[[0, 1], 2], 3], 4], "varargs": True,
+                      "leaves": [{"names": [nm], "dims": [2], "nout": 0, "seed": 77 + nm} for nm in (6, 1, 9, 0, 4)]})
     ctx.sample("state", cases[7])
     ctx.run_cases("state", chk_tree, cases)
 
@@ -652,9 +671,9 @@ def sub_gate(ctx):
     for k, c in enumerate(c3):
         if ctx.quick or k % 4:
             c["leaves"] = [dict(sp, phys=False) for sp in c["leaves"]]
-    cases = c3[:: (4 if ctx.quick else 1)]
+    cases = c3[:: (6 if ctx.quick else 1)]
     cases += exhaustive_tree_cases(ctx, "gate", [2, 3], [5, 2], [0, 0])
-    cases += gen_tree_cases(ctx, "gate", [2, 2, 3] if not ctx.quick else [2], ctx.n(4, 40))
+    cases += gen_tree_cases(ctx, "gate", [2, 2, 3] if not ctx.quick else [2], ctx.n(3, 40))
     ctx.sample("gate", cases[3])
     ctx.run_cases("gate", chk_tree, cases)
 
@@ -739,6 +758,49 @@ def chk_mprocess(ctx, case):
         ctx.violation("mprocess", "operators.tensor_product:mprocess", "unphysical-product", "product of physical instruments is not physical", case)
 
 
+def chk_mchain(ctx, case):
+    from quara.objects.operators import tensor_product
+    kinds, names, nest = case["chain"], case["names"], case["nest"]
+    leaves = [make_leaf("gate" if k == "g" else "mprocess", {"names": [nm], "dims": [2], "nout": no, "seed": sd, "phys": False})
+              for k, nm, no, sd in zip(kinds, names, case["nouts"], case["seeds"])]
+    objs = [l["obj"] for l in leaves]
+    if nest == "varargs":
+        call = lambda: tensor_product(*objs)
+    elif nest == "left":
+        call = lambda: tensor_product(tensor_product(objs[0], objs[1]), objs[2])
+    else:
+        call = lambda: tensor_product(objs[0], tensor_product(objs[1], objs[2]))
+    impl = run_impl(call)
+    ctx.count("mprocess", key=repr(case), nontrivial=True, label="chain-%s-%s-%s" % ("".join(kinds), nest, impl[0]))
+    if impl[0] == "err":
+        ctx.violation("mprocess", "operators.tensor_product:chain", "unexpected-raise", "%s %s" % impl[1:], case)
+        return
+    r = impl[1]
+    shapes = [(l["nout"],) if k == "m" else () for k, l in zip(kinds, leaves)]
+    want_shape = tuple(x for sh in shapes for x in sh)
+    if tuple(r.shape) != want_shape:
+        ctx.violation("mprocess", "operators.tensor_product:chain", "shape-not-argument-order", "reported shape %s, operands' shapes in argument order %s" % (tuple(r.shape), want_shape), case)
+        return
+    Bc = [dense(x) for x in r.composite_system.basis()]
+    dims = [2, 2, 2]
+    tree = [[0, 1], 2]
+    for idx in itertools.product(*[range(n) for n in want_shape]):
+        it = iter(idx)
+        sel = [next(it) if k == "m" else None for k in kinds]
+        ops = [l["ops"][x] if k == "m" else l["ops"] for k, l, x in zip(kinds, leaves, sel)]
+        hs_sel = [l["hss"][x] if k == "m" else l["hs"] for k, l, x in zip(kinds, leaves, sel)]
+        mleaves = [{"names": [nm], "rs": [4], "cs": [4], "data": [float(v) for v in h.ravel()]} for nm, h in zip(names, hs_sel)]
+        mod = model_eval(ctx, 2, MODE, tree, mleaves)
+        have = r.hs(tuple(idx)) if len(idx) > 1 else r.hs(int(idx[0]))
+        if mod[0] != "ok" or maxabs(have, mod[4]) > TOL * (1 + np.abs(mod[4]).max()):
+            ctx.violation("mprocess", "operators.tensor_product:chain", "model-mismatch", "hs(%s) of the chain differs from the model's product of the indexed outcomes" % (idx,), case)
+            return
+        bad = gate_pred(have, Bc, ops, names, dims, seeds=(31,))
+        if bad is not None:
+            ctx.violation("mprocess", "operators.tensor_product:chain", "not-factorwise-action", "hs(%s) of the chain (shape %s) does not act as the product of the indexed outcomes (%.3g)" % (idx, want_shape, bad), case)
+            return
+
+
 def sub_mprocess(ctx):
     rng = ctx.rng
     cases = []
@@ -750,9 +812,19 @@ def sub_mprocess(ctx):
         nouts = rng.sample([2, 3, 4], 2)
         if i % 8 == 1:
             nouts = [2, 2]            # equal counts: the layout defect is invisible in the shape
-        cases.append({"kinds": kinds, "leaves": [{"names": [names[k]], "dims": [d[k]], "nout": nouts[k], "seed": rng.randrange(10 ** 9), "phys": i % 3 == 0} for k in range(2)]})
+        cases.append({"kinds": kinds, "leaves": [{"names": [names[k]], "dims": [d[k]], "nout": nouts[k], "seed": rng.randrange(10 ** 9), "phys": i % 3 == 0,
+                                                  "layout": ["C", "F", "strided"][(i + k) % 3]} for k in range(2)]})
     ctx.sample("mprocess", cases[0])
     ctx.run_cases("mprocess", chk_mprocess, cases)
+    # chains of three operands (varargs and both nestings): the reported shape is the concatenation in ARGUMENT order, also when an
+    # operand already has a multi-dimensional shape, and hs(multi-index) is the product of the indexed outcomes
+    chains = []
+    pats = [["m", "m", "m"], ["m", "m", "g"], ["g", "m", "m"], ["m", "g", "m"]]
+    for i in range(ctx.n(3, 16) if not getattr(ctx, "widen", False) else 16):
+        names = rng.sample(range(0, 9), 3)
+        chains.append({"chain": pats[i % 4], "nest": ["varargs", "left", "right", "left"][i % 4] if i < 4 else ["varargs", "left", "right"][i % 3], "names": names,
+                       "nouts": rng.sample([2, 3, 2, 4], 3) if i % 2 else [2, 3, 2], "seeds": [rng.randrange(10 ** 9) for _ in range(3)]})
+    ctx.run_cases("mprocess", chk_mchain, chains)
 
 
 # ------------------------------------------------------------------ sub-check: ensembles, bases, rejected type pairs
@@ -799,6 +871,39 @@ def chk_misc(ctx, case):
                 if maxabs(st.to_density_matrix(), want) > TOL or abs(p - a[2][i] * b[2][j]) > 1e-12:
                     ctx.violation("misc", "operators._tensor_product_StateEnsemble_StateEnsemble", "layout", "entry %s of the product ensemble is not (state %d (x) state %d, p_i p_j)" % (idx, i, j), case)
                     return
+    elif kind == "ensemble3":
+        # ensemble (x) state (x) ensemble and nestings: shape = concatenation in argument order, entries = products
+        names = case["names"]; shapes = case["shapes"]
+        parts = []
+        for nm, shp in zip(names, shapes):
+            cnt = int(np.prod(shp)) if shp else 1
+            sts = [make_leaf("state", {"names": [nm], "dims": [2], "nout": 0, "seed": rng.randrange(10 ** 9)}) for _ in range(cnt)]
+            w = [Fraction(rng.randint(1, 9)) for _ in range(cnt)]
+            ps = [float(x / sum(w)) for x in w]
+            obj = StateEnsemble([s_["obj"] for s_ in sts], MD(np.array(ps), shape=tuple(shp))) if shp else sts[0]["obj"]
+            parts.append((sts, ps if shp else [1.0], obj, list(shp)))
+        objs = [p_[2] for p_ in parts]
+        call = {"varargs": lambda: tensor_product(*objs), "left": lambda: tensor_product(tensor_product(objs[0], objs[1]), objs[2]),
+                "right": lambda: tensor_product(objs[0], tensor_product(objs[1], objs[2]))}[case["nest"]]
+        impl = run_impl(call)
+        ctx.count("misc", key=repr(case), nontrivial=True, label="ensemble-chain-%s" % case["nest"])
+        if impl[0] == "err":
+            ctx.violation("misc", "operators.tensor_product:ensemble-chain", "unexpected-raise", "%s %s" % impl[1:], case)
+            return
+        r = impl[1]
+        want_shape = tuple(x for p_ in parts for x in p_[3])
+        if tuple(r.prob_dist.shape) != want_shape:
+            ctx.violation("misc", "operators.tensor_product:ensemble-chain", "shape-not-argument-order", "shape %s expected %s" % (tuple(r.prob_dist.shape), want_shape), case)
+            return
+        for combo in itertools.product(*[range(len(p_[0])) for p_ in parts]):
+            idx = tuple(int(v) for p_, c in zip(parts, combo) if p_[3] for v in np.unravel_index(c, p_[3]))
+            st = r.state(idx) if len(idx) > 1 else r.state(int(idx[0]))
+            p = r.prob_dist[idx] if len(idx) > 1 else r.prob_dist[int(idx[0])]
+            want = reorder(kron_all([p_[0][c]["ops"] for p_, c in zip(parts, combo)]), names, [2, 2, 2])
+            pw = float(np.prod([p_[1][c] for p_, c in zip(parts, combo)]))
+            if maxabs(st.to_density_matrix(), want) > TOL or abs(p - pw) > 1e-12:
+                ctx.violation("misc", "operators.tensor_product:ensemble-chain", "layout", "entry %s is not the product of the indexed states / probabilities" % (idx,), case)
+                return
     elif kind == "basis":
         d1, d2 = case["dims"]
         b1, b2 = qbasis(d1)[0], qbasis(d2)[0]
@@ -856,6 +961,9 @@ def sub_misc(ctx):
     for typ in ("state", "povm", "gate"):
         cases.append({"kind": "dupname", "typ": typ, "seed": 0})
     cases.append({"kind": "arity", "seed": 0})
+    for i in range(ctx.n(3, 12)):
+        shp = [[[2], [], [3]], [[2], [3], [2]], [[], [2, 2], [3]], [[3], [2], []]][i % 4]
+        cases.append({"kind": "ensemble3", "names": rng.sample(range(8), 3), "shapes": shp, "nest": ["varargs", "left", "right"][i % 3], "seed": rng.randrange(10 ** 9)})
     ctx.sample("misc", cases[0])
     ctx.run_cases("misc", chk_misc, cases)
 
